@@ -381,6 +381,55 @@ class LocalReportHooks(QHooks):
 
     prim_substdio_put = prim_substdio_puts = prim_substdio_bput = prim_substdio_bputs = _put
 
+    def _scan(self, E, p, cnt):
+        """a search for the first NUL in cnt bytes from p: one outcome per position it can be at (or nowhere), consistent with the bytes already looked at"""
+        if not (isinstance(p, tuple) and p[0] == '&' and p[1].startswith('RL[') and isinstance(cnt, int) and 0 <= cnt < 64):
+            return None
+        k0 = int(p[1][3:-1])
+        if k0 + cnt > self.n and self.bad is None:
+            self.bad = ('%d bytes from byte %d of a %d-byte output are searched' % (cnt, k0, self.n), E.trace.list())
+        outs = []
+        for k in range(cnt + 1):
+            sets, ok = {}, True
+            for j in range(k + 1 if k < cnt else k):
+                cell = 'RL[%d]' % (k0 + j)
+                cur = E.store.get(cell)
+                want0 = (j == k)
+                if k0 + j >= self.n:
+                    cur = fs(0) if cur is None else cur
+                if cur is None:
+                    sets[cell] = fs(0) if want0 else fs(120)
+                elif (0 in cur) if want0 else any(b_ != 0 for b_ in cur):
+                    sets[cell] = fs(0) if want0 else frozenset(b_ for b_ in cur if b_ != 0)
+                else:
+                    ok = False
+                    break
+            if ok:
+                outs.append((k, sets))
+        return outs
+
+    def prim_byte_chr(self, E, x, args):
+        p, cnt, c = (_libtab._one(v) for v in args[:3])
+        outs = self._scan(E, p, cnt) if c == 0 else None
+        if outs is None:
+            return [Outcome(ret=TOP)]
+        return [Outcome(ret=fs(k), sets=sets) for k, sets in outs]
+
+    def prim_memchr(self, E, x, args):
+        from qv.esp import ptr_add
+        p, c, cnt = (_libtab._one(v) for v in args[:3])
+        outs = self._scan(E, p, cnt) if c == 0 else None
+        if outs is None:
+            return [Outcome(ret=TOP)]
+        return [Outcome(ret=fs(ptr_add(p, k)) if k < cnt else fs(0), sets=sets) for k, sets in outs]
+
+    def prim_strnlen(self, E, x, args):
+        p, cnt = (_libtab._one(v) for v in args[:2])
+        outs = self._scan(E, p, cnt)
+        if outs is None:
+            return [Outcome(ret=TOP)]
+        return [Outcome(ret=fs(k), sets=sets) for k, sets in outs]
+
 
 def report_read_sites(db, rep):
     """the two spawners' report(): only the `len` bytes of the delivery program's output are read"""
